@@ -35,6 +35,7 @@ SHAPES = {
     "DS": [["@"]],                     # a directory whose only file carries the directory's own name
     "DL": [["a.bin"], ["sub", "b.bin"], ["mirror", "a.bin"], ["zz-link"]],    # hard links inside the payload
     "DD": [["CD1", "cover.jpg"], ["CD2", "cover.jpg"], ["x.bin"]],          # same name, (made) identical bytes
+    "DM": [["m%02d" % k] if k % 3 else ["g%d" % (k // 3), "m%02d" % k] for k in range(14)],   # many files
 }
 
 
@@ -86,7 +87,7 @@ def gen_trees(tier, rng, plens, quick_n, thorough_n, need_nonempty=True):
                       (8 * M, (M + 7, 9 * M + 3, 100 * 1024))):      # a piece reaching > 4 MiB into the next file
         out.append(({1: "S1", 2: "D2", 3: "D3"}[len(szs)], szs, Pbig))
     n = thorough_n if tier == "thorough" else quick_n
-    shapes = ["D3", "D4", "D2n", "D2", "DN", "DNf", "DC", "DU", "D5", "DNFC", "DS", "DL"]
+    shapes = ["D3", "D4", "D2n", "D2", "DN", "DNf", "DC", "DU", "D5", "DNFC", "DS", "DL", "DM"]
     for _ in range(n):
         P = rng.choice(plens)
         A = alphabet(P)
